@@ -111,8 +111,15 @@ def failing (marker : Option String) (call : Call) : Bool :=
 def errText (p : Program) (m : Method) (call : Call) : String :=
   failText p.contract.error.isSome (retErrTy m.ret) call.handler
 
+/-- the chain wraps a migrate response's data in a protobuf envelope (field 1, length-delimited; handler ids are short) -/
+def chainData (call : Call) : String :=
+  if call.kind = .migrate then
+    let d := "m:" ++ call.handler
+    "0a" ++ String.ofList [hexDigit (d.length / 16), hexDigit (d.length % 16)] ++ hexText d
+  else "-"
+
 def respText (head : String) (slot : Nat) (call : Call) : String :=
-  head ++ "+wasm[_contract_address=#" ++ toString slot ++ "|" ++ echoText slot call ++ "] data=-"
+  head ++ "+wasm[_contract_address=#" ++ toString slot ++ "|" ++ echoText slot call ++ "] data=" ++ chainData call
 
 /-- one atomic step of the chain, once the contract has (or has not) decoded the message into a call -/
 def stepWith (p : Program) (ch : Chain) (s : Shape) (o : Outcome) : Chain × Res :=
